@@ -340,6 +340,19 @@ func randRR(r *mrand.Rand, zone string, small bool) dns.RR {
 // printable octet without being letters ([ ] ^ and { } ~)
 var signers = []string{"key.example.", "KeY.Example.ORG.", "k.", "signer.with.a.rather.long.name.to.make.the.rdata.bigger.example.net.", "Sig[0]^k.example."}
 
+// signer names whose text is not as long as their wire form: an escaped dot, quote and backslash, octets spelled \DDD (each
+// one octet on the wire, two to four characters in the Go string) and the root (one octet, one character, no label): whatever
+// sizes a buffer from len(SignerName) instead of the packed length is off for these.  Spelled the way the library prints names.
+var spelledSigners = []string{"host\\.name.example.org.", ".", "\\000\\255s.k.example.", "quo\\\"te\\\\k.example."}
+
+// below: prefix + name, for the root as well ("other." + "." is no name)
+func below(prefix, name string) string {
+	if name == "." {
+		return prefix
+	}
+	return prefix + name
+}
+
 // what a SIG value may hold before Sign besides the five fields Sign reads (SignerName, KeyTag, Algorithm, Inception,
 // Expiration): the header filled in like that of any other record, the remaining RDATA fields.  Sign's result is a
 // function of the message and the five fields (spec: LayoutFault takes nothing else).
@@ -476,6 +489,9 @@ func randMsg(r *mrand.Rand, i int) msgCase {
 		}
 	}
 	signer := signers[r.Intn(len(signers))]
+	if i%4 == 3 { // every fourth message: a signer whose presentation form and wire form differ in length (all four within 16 messages)
+		signer = spelledSigners[(i/4)%len(spelledSigners)]
+	}
 	window := []int{0, 4, 0, 1, 0, 5, 2, 0, 6, 0, 3, 0, 1, 0}[i%14] // every kind within any 14 consecutive messages
 	return msgCase{m, signer, window}
 }
@@ -527,6 +543,9 @@ type evSign struct {
 	ErrClass string `json:"errclass"`
 	Err      string `json:"err"`
 	Out      hx.B   `json:"out"`
+	// the octets Sign returned are the same after the next Sign call (another message, a fresh SIG value, the same key) and at
+	// the end of the run, after every later one
+	Stable bool `json:"stable"`
 }
 
 // ar: the first len(arBoundary) messages are the ARCOUNT boundary ones (quick: first algorithm only)
@@ -556,6 +575,11 @@ func record(out, keysPath string, n int, algs []string, ar bool, only int) {
 	}
 	saveKeys(keysPath, now, ks)
 	seen := map[string]bool{}
+	type held struct {
+		e   evSign
+		res []byte // what Sign returned, kept the way a caller keeps it: the slice itself
+	}
+	var kept []*held
 	for i := 0; i < n; i++ {
 		c := randMsg(r, i)
 		isAR := ar && i < len(arBoundary)
@@ -627,11 +651,27 @@ func record(out, keysPath string, n int, algs []string, ar bool, only int) {
 				}
 			}
 			seen[string(packed)+a] = true
-			w.Emit(e)
+			e.Stable = true
+			if serr == nil {
+				// the next caller: another (small) message, a SIG value of its own, the same key -- then look at what the first one holds
+				next := new(dns.Msg)
+				next.SetQuestion("next.message.example.", dns.TypeTXT)
+				next.Id = ^c.m.Id
+				nsig := &dns.SIG{RRSIG: dns.RRSIG{Algorithm: k.rr.Algorithm, Inception: inc, Expiration: exp, KeyTag: k.rr.KeyTag(), SignerName: "key.example."}}
+				hx.Catch(func() { nsig.Sign(k.priv, next) }) // its outcome is not this event's business
+				e.Stable = bytes.Equal(res, e.Out.Bytes())
+			}
+			kept = append(kept, &held{e, res})
 			if id < 2 {
 				sum.Sample(map[string]interface{}{"id": id, "alg": a, "msglen": len(packed), "ok": e.Ok, "outlen": len(res)})
 			}
 		}
+	}
+	for _, h := range kept { // ... and after every later call of the run
+		if h.e.Ok && !bytes.Equal(h.res, h.e.Out.Bytes()) {
+			h.e.Stable = false
+		}
+		w.Emit(h.e)
 	}
 	sum.Nontrivial = len(seen)
 	sum.Note("sign_events", w.N)
@@ -655,6 +695,7 @@ type emitted struct {
 	SpecOut    hx.B     `json:"specout"`
 	SpecSigned hx.B     `json:"specsigned"`
 	Regions    []region `json:"regions"`
+	Fields     []region `json:"fields"` // the SIG RDATA fields in front of the signature, by name
 }
 type evVerify struct {
 	Ev       string `json:"ev"`
@@ -898,7 +939,7 @@ func finish(eventsPath, emitPath, keysPath, verifyPath string) {
 					}
 				}
 				vs = append(vs,
-					variant{"owner-other", withOwner(k0.rr, "other."+signer), k0.priv.Public(), nil},
+					variant{"owner-other", withOwner(k0.rr, below("other.", signer)), k0.priv.Public(), nil},
 					variant{"owner-parent", withOwner(k0.rr, "example."), k0.priv.Public(), nil},
 					variant{"key-other", withOwner(k1.rr, signer), k1.priv.Public(), nil},
 					variant{"key-other-alg", withOwner(other.rr, signer), other.priv.Public(), nil},
@@ -977,6 +1018,8 @@ func finish(eventsPath, emitPath, keysPath, verifyPath string) {
 	sum.Print()
 }
 
+var sweptAll int // messages whose SIG RDATA fields have all been swept through every octet value
+
 // tampering and truncation, on a message the real Verify accepts: every expectation here is a rejection,
 // so a validity window running out meanwhile cannot turn into a false alarm
 func tamper(e *evSign, em *emitted, keyrr *dns.KEY, bufs [][]byte, names []string, sum *hx.Summary, tampered, truncated *int) {
@@ -1027,6 +1070,41 @@ func tamper(e *evSign, em *emitted, keyrr *dns.KEY, bufs [][]byte, names []strin
 						sum.Mis("sig0/verify-panics:tampered:"+rg.What, "panic: "+p1+p2, c)
 					} else if rg.Must == "reject" && (e1 == nil || e2 == nil) {
 						sum.Mis("sig0/verify-accepts-tampered:"+rg.What, fmt.Sprintf("bit %d of octet %d (%s) altered, Verify still accepts (direct=%v, via Unpack=%v)", bit, off, rg.What, e1, e2), c)
+					}
+				}
+			}
+		}
+		// every OTHER VALUE of an octet of the SIG RDATA fields (the specification: RdataFields, all "reject"): the one-octet
+		// fields -- algorithm, labels -- on every message; the others on the first messages of the run that Verify accepts
+		// (two; one when the curve is P-384), every value as well
+		sweepAll := sweptAll < 2 && len(buf) <= 2500 && !(e.SigLen == 96 && sweptAll >= 1)
+		if sweepAll {
+			sweptAll++
+		}
+		for _, fd := range em.Fields {
+			if !sweepAll && fd.To > fd.From {
+				continue
+			}
+			for off := fd.From; off <= fd.To && off < len(buf); off++ {
+				for v := 0; v < 256; v++ {
+					if byte(v) == buf[off] {
+						continue
+					}
+					t := append([]byte(nil), buf...)
+					t[off] = byte(v)
+					*tampered++
+					sum.Evaluations++
+					e1, p1 := direct(orig, keyrr, t)
+					m1 := modified
+					e2, p2 := receive(keyrr, t)
+					c := map[string]interface{}{"id": e.Id, "buf": names[bi], "offset": off, "value": v, "field": fd.What}
+					if m1 || modified {
+						sum.Mis("sig0/verify-modifies-input:tampered", fmt.Sprintf("Verify changed the octets it was given (octet %d set to %d beforehand)", off, v), c)
+					}
+					if p1 != "" || p2 != "" {
+						sum.Mis("sig0/verify-panics:octet-value:"+fd.What, fmt.Sprintf("octet %d (%s) set to %d: panic: %s%s", off, fd.What, v, p1, p2), c)
+					} else if fd.Must == "reject" && (e1 == nil || e2 == nil) {
+						sum.Mis("sig0/verify-accepts-altered-octet:"+fd.What, fmt.Sprintf("octet %d (%s) set to %d instead of %d, Verify still accepts (direct=%v, via Unpack=%v)", off, fd.What, v, buf[off], e1, e2), c)
 					}
 				}
 			}
